@@ -99,6 +99,21 @@ fn resolve_many(cmd: &Value) -> OpResult {
     let chains = Arc::new(chains);
     let rules = Arc::new(rules);
     type Out = (BTreeSet<String>, BTreeSet<u64>, u64, usize);
+    // One resolution on the long-lived worker thread (which has served every earlier command: other
+    // stores, other room versions), the others on fresh threads: "however often or on whichever thread".
+    let inline = if crate::b(cmd, "inline") {
+        let (res, trace, n) = resolve_once(&rules, &store, &sets, &chains, 0);
+        Some((
+            match res {
+                Ok(m) => serde_json::to_string(&m.into_iter().map(|((t, k), id)| (t, k, id)).collect::<Vec<_>>()).unwrap(),
+                Err(e) => format!("ERR:{e}"),
+            },
+            trace,
+            n,
+        ))
+    } else {
+        None
+    };
     let mut handles = vec![];
     for t in 0..threads {
         let (store, sets, chains, rules) = (store.clone(), sets.clone(), chains.clone(), rules.clone());
@@ -123,6 +138,12 @@ fn resolve_many(cmd: &Value) -> OpResult {
     let mut traces = BTreeSet::new();
     let mut runs = 0;
     let mut fetches = 0;
+    if let Some((r, t, n)) = inline {
+        results.insert(r);
+        traces.insert(t);
+        runs += 1;
+        fetches += n;
+    }
     for h in handles {
         match h.join() {
             Ok((r, t, n, f)) => {
